@@ -31,10 +31,10 @@ Local Notation en := (f0_enum fb m lm cn lcn).
 Local Notation k := (length (fl_crossings fb)).
 
 Variable r : run.
-(** the candidate has a level of every factor in every trial, outside the source factors an admitted one *)
+(** the candidate has a level of every factor in every trial; without derived factors an admitted one *)
 Hypothesis Hcells : forall g, In g (fl_act fb) -> exists row, rlookup r g = Some row /\ length row = T /\
   Forall (fun cell => exists l, cell = Some l /\ l < nlevels fb g /\
-                                (~ In g (f0_ubs fb) -> ~ In (FExclude g l) (fl_constraints fb))) row.
+                                (has_derived fb = false -> ~ In (FExclude g l) (fl_constraints fb))) row.
 Local Notation s := (tseq_of_run fb r).
 
 Definition lev (f t : nat) : nat :=
@@ -45,7 +45,7 @@ Definition lev (f t : nat) : nat :=
 
 Lemma lev_cell g t : In g (fl_act fb) -> t < T ->
   exists row, rlookup r g = Some row /\ length row = T /\ nth_error row t = Some (Some (lev g t)) /\
-              lev g t < nlevels fb g /\ (~ In g (f0_ubs fb) -> ~ In (FExclude g (lev g t)) (fl_constraints fb)).
+              lev g t < nlevels fb g /\ (has_derived fb = false -> ~ In (FExclude g (lev g t)) (fl_constraints fb)).
 Proof.
   intros Hg Ht. destruct (Hcells g Hg) as (row & Hr & Hl & Hc). exists row. split; [exact Hr|]. split; [exact Hl|].
   rewrite Forall_forall in Hc. assert (Hin : In (nth t row None) row) by (apply nth_In; lia).
@@ -112,8 +112,7 @@ Proof.
       apply not_true_is_false. intros E. apply (f0_excluded_spec fb HF) in E.
       destruct E as (f & l & Hk & Hl). rewrite alookup_combine_map in Hl. destruct (memb f ci) eqn:Em; [|discriminate].
       inversion Hl as [Hl']. apply memb_In in Em.
-      destruct (lev_cell f t (Hrange f Em) Ht) as (_ & _ & _ & _ & _ & Hne'). apply Hne'; [|rewrite Hl'; exact Hk].
-      destruct (f0_no_derived_sf fb HF Hnoder) as (_ & _ & Hubs & _). rewrite Hubs. intros [].
+      destruct (lev_cell f t (Hrange f Em) Ht) as (_ & _ & _ & _ & _ & Hne'). apply (Hne' Hnoder). rewrite Hl'. exact Hk.
   - exact Esz.
   - reflexivity.
   - intros t Ht. unfold combo_at, K. rewrite map_map. apply map_ext_in. intros f Hf.
